@@ -637,7 +637,7 @@ impl ASN1Type {
                     ));
                 }
                 let mut impl_template = ty.clone();
-                let mut impl_tlds = tlds.clone();
+                let mut impl_tlds = with_resolved_value_chains(tlds);
                 let mut table_constraint_replacements = BTreeMap::new();
                 for (
                     index,
@@ -1925,6 +1925,36 @@ fn bit_string_value_from_named_bits(
             })
         })
         .collect()
+}
+
+/// A copy of `tlds` in which references from one value definition to another are followed. Scopes
+/// derived from it (the formal parameters of a parameterized type hide definitions of the same name)
+/// then cannot redirect a reference that was written outside the parameterized type.
+pub(crate) fn with_resolved_value_chains(
+    tlds: &BTreeMap<String, ToplevelDefinition>,
+) -> BTreeMap<String, ToplevelDefinition> {
+    let mut resolved = tlds.clone();
+    for tld in resolved.values_mut() {
+        if let ToplevelDefinition::Value(v) = tld {
+            // bounded, in case the references form a cycle
+            for _ in 0..=tlds.len() {
+                match &v.value {
+                    ASN1Value::ElsewhereDeclaredValue {
+                        identifier,
+                        parent: None,
+                        ..
+                    } => match tlds.get(identifier) {
+                        Some(ToplevelDefinition::Value(next)) if next.name != v.name => {
+                            v.value = next.value.clone()
+                        }
+                        _ => break,
+                    },
+                    _ => break,
+                }
+            }
+        }
+    }
+    resolved
 }
 
 #[cfg(test)]
